@@ -10,7 +10,7 @@ open PgVerif PgVerif.Spec
 theorem crcStep1_xor (x y : W32) : crcStep1 (x ^^^ y) = crcStep1 x ^^^ crcStep1 y := by
   unfold crcStep1
   have hs : (x ^^^ y) >>> 1 = (x >>> 1) ^^^ (y >>> 1) := by
-    ext i; simp [BitVec.getLsbD_ushiftRight, BitVec.getLsbD_xor]
+    ext i; simp [BitVec.getLsbD_xor]
   simp only [BitVec.getLsbD_xor, hs]
   cases hx : x.getLsbD 0 <;> cases hy : y.getLsbD 0 <;> simp
   · ac_rfl
@@ -33,7 +33,7 @@ theorem crcIter_high (n : Nat) (x : W32) (h : ∀ i, i < n → x.getLsbD i = fal
     rw [this]
     unfold crcStep1
     have h0 : (x >>> n).getLsbD 0 = false := by
-      simp [BitVec.getLsbD_ushiftRight]; exact h n (by omega)
+      simp; exact h n (by omega)
     rw [h0]
     ext i; simp [BitVec.getLsbD_ushiftRight]; congr 1; omega
 
@@ -70,7 +70,7 @@ theorem table_getD (k : Nat) (hk : k < 256) :
     Model.makeCRC32CTable.getD k 0#32 = crcIter 8 (BitVec.ofNat 32 k) := by
   rw [table_eq]
   unfold crc32cTable
-  simp [List.getD_eq_getElem?_getD, List.getElem?_map, List.getElem?_range, hk]
+  simp [List.getD_eq_getElem?_getD, hk]
 
 theorem ff_bit (i : Nat) : (0xFF#32).getLsbD i = decide (i < 8) := by
   have : (0xFF#32) = BitVec.ofNat 32 (2 ^ 8 - 1) := rfl
@@ -140,8 +140,15 @@ theorem crcFold_eq (bs : Bytes) (c : W32) :
   | nil => rfl
   | cons b bs ih => simp only [List.foldl_cons, crcUpdate_eq, ih]
 
-theorem verifyCRC32C_eq (bs : Bytes) (x : Nat) : Model.verifyCRC32C bs x = (crc32c bs == x) := by
+theorem nat_beq_comm (a b : Nat) : (a == b) = (b == a) := by
+  by_cases h : a = b
+  · subst h; rfl
+  · have h' : b ≠ a := fun e => h e.symm
+    rw [beq_eq_false_iff_ne.mpr h, beq_eq_false_iff_ne.mpr h']
+
+theorem verifyCRC32C_eq (bs : Bytes) (x : Nat) : Model.verifyCRC32C bs x = (x == crc32c bs) := by
   unfold Model.verifyCRC32C crc32c
   simp only [crcFold_eq]
+  exact nat_beq_comm _ _
 
 end PgVerif.Proofs
